@@ -167,11 +167,36 @@ func vDiodeReenter(poller bool) {
 	}()
 	wg.Wait()
 	zzverif.Assert(w.Close() == nil, "C12: Close returns although the alerter wrote through the same diode")
+	zzverif.Assert(w.Close() == nil, "C12: a second Close returns as well")
 	zzverif.Reach("diode/reenter")
 }
 
 func VH_C10_reenter_waiter() { vDiodeReenter(false) }
 func VH_C10_reenter_poller() { vDiodeReenter(true) }
+
+// A caller may reuse its buffer as soon as Write has returned, whatever its size: the wrapped
+// writer must still receive the bytes that were passed to Write (C10: byte-identical delivery).
+func vDiodeBigBuf(poller bool) {
+	sink := &vSink{}
+	interval := time.Duration(0)
+	if poller {
+		interval = time.Millisecond
+	}
+	w := NewWriter(sink, 2, interval, nil)
+	capacity := []int{2, 600, 70000}[zzverif.Choice(3)] // around the 64 KiB pooling limit too
+	p := make([]byte, 2, capacity)
+	p[0], p[1] = 'o', 'k'
+	n, err := w.Write(p)
+	zzverif.Assert(n == 2 && err == nil, "C10: Write reports the full length")
+	p[0], p[1] = 'X', 'X' // the caller reuses its buffer
+	zzverif.Assert(w.Close() == nil, "C12: Close returns")
+	zzverif.Assert(len(sink.got) == 1, "C10: the message is delivered exactly once")
+	zzverif.Assert(len(sink.got) == 1 && string(sink.got[0]) == "ok", "C10: the delivered buffer is byte-identical to the argument of Write although the caller reused its buffer afterwards")
+	zzverif.Reach("diode/bigbuf")
+}
+
+func VH_C10_bigbuf_waiter() { vDiodeBigBuf(false) }
+func VH_C10_bigbuf_poller() { vDiodeBigBuf(true) }
 
 func VH_C10_stuck_writer_waiter() { vDiodeStuck(false, 1+zzverif.Choice(2)) }
 func VH_C10_stuck_writer_poller() { vDiodeStuck(true, 1+zzverif.Choice(2)) }
